@@ -243,32 +243,78 @@ func (p *Pool) Close() {
 	}
 }
 
-// Explore drains the path tree of harness fn.
+// Job is one harness with its bounds.
+type Job struct {
+	Fn   *ssa.Function
+	Conf Config
+}
+
+// Explore drains the path tree of one harness.
 func (p *Pool) Explore(fn *ssa.Function, conf Config) *HarnessResult {
+	return p.ExploreAll([]Job{{fn, conf}})[0]
+}
+
+// ExploreAll drains the path trees of several harnesses concurrently: every
+// machine takes the next pending path of any harness.
+func (p *Pool) ExploreAll(jobs []Job) []*HarnessResult {
 	w := p.W
-	res := &HarnessResult{Name: fn.Name(), Unsupported: map[string]int{}, Internal: map[string]int{}, CEs: map[string]*CEGroup{},
-		Reached: map[string]int{}, Asserted: map[string]int{}}
-	t0 := time.Now()
+	results := make([]*HarnessResult, len(jobs))
+	started := make([]time.Time, len(jobs))
+	ended := make([]time.Time, len(jobs))
+	inflight := make([]int, len(jobs))
+	over := make([]bool, len(jobs))
+	for i, j := range jobs {
+		results[i] = &HarnessResult{Name: j.Fn.Name(), Unsupported: map[string]int{}, Internal: map[string]int{}, CEs: map[string]*CEGroup{},
+			Reached: map[string]int{}, Asserted: map[string]int{}}
+	}
 	w.resetQueue()
-	w.push(nil)
+	for i := range jobs {
+		w.push(i, nil)
+	}
 	var mu sync.Mutex
 	var wg sync.WaitGroup
-	deadline := t0.Add(conf.MaxTime)
-	overBudget := false
 	for _, m := range p.Ms {
-		m.Conf = conf
 		m.S.Stats = solver.Stats{}
 		m.Stats = MStats{Unsupported: map[string]int{}, Internal: map[string]int{}}
 		wg.Add(1)
 		go func(m *Machine) {
 			defer wg.Done()
 			for {
-				prefix, ok := w.pop()
+				t, ok := w.pop()
 				if !ok {
 					return
 				}
-				pr := m.RunPath(fn, prefix)
+				job := jobs[t.h]
+				res := results[t.h]
 				mu.Lock()
+				if started[t.h].IsZero() {
+					started[t.h] = time.Now()
+				}
+				inflight[t.h]++
+				mu.Unlock()
+				m.Conf = job.Conf
+				m.curH = t.h
+				before := m.S.Stats
+				bst := m.Stats
+				pr := m.RunPath(job.Fn, t.prefix)
+				after := m.S.Stats
+				mu.Lock()
+				inflight[t.h]--
+				ended[t.h] = time.Now()
+				res.Solver.Queries += after.Queries - before.Queries
+				res.Solver.Sat += after.Sat - before.Sat
+				res.Solver.Unsat += after.Unsat - before.Unsat
+				res.Solver.Unknown += after.Unknown - before.Unknown
+				res.Solver.Errors += after.Errors - before.Errors
+				res.Solver.Restarts += after.Restarts - before.Restarts
+				res.Solver.Time += after.Time - before.Time
+				if after.MaxQuery > res.Solver.MaxQuery {
+					res.Solver.MaxQuery = after.MaxQuery
+				}
+				res.AssertUnsat += m.Stats.AssertUnsat - bst.AssertUnsat
+				res.AssertSat += m.Stats.AssertSat - bst.AssertSat
+				res.AssertUnk += m.Stats.AssertUnk - bst.AssertUnk
+				res.BranchQ += m.Stats.BranchQ - bst.BranchQ
 				res.Paths++
 				switch pr.End.kind {
 				case "done":
@@ -321,44 +367,26 @@ func (p *Pool) Explore(fn *ssa.Function, conf Config) *HarnessResult {
 					res.SamplePaths = append(res.SamplePaths, fmt.Sprintf("decisions=%v choices=%v steps=%d", prefixOf(m.trace), pr.Choices, pr.Steps))
 				}
 				res.Steps += int64(pr.Steps)
-				stop := false
-				if (conf.MaxPaths > 0 && res.Paths >= conf.MaxPaths) || time.Now().After(deadline) {
-					stop = true
-					overBudget = true
+				if !over[t.h] && ((job.Conf.MaxPaths > 0 && res.Paths >= job.Conf.MaxPaths) || time.Since(started[t.h]) > job.Conf.MaxTime) {
+					over[t.h] = true
+					w.kill(t.h)
 				}
 				mu.Unlock()
 				w.done()
-				if stop {
-					w.stop()
-					return
-				}
 			}
 		}(m)
 	}
 	wg.Wait()
-	res.Complete = !overBudget
-	res.Wall = time.Since(t0)
-	for _, m := range p.Ms {
-		st := m.S.Stats
-		res.Solver.Queries += st.Queries
-		res.Solver.Sat += st.Sat
-		res.Solver.Unsat += st.Unsat
-		res.Solver.Unknown += st.Unknown
-		res.Solver.Errors += st.Errors
-		res.Solver.Restarts += st.Restarts
-		res.Solver.Time += st.Time
-		if st.MaxQuery > res.Solver.MaxQuery {
-			res.Solver.MaxQuery = st.MaxQuery
+	for i, res := range results {
+		res.Complete = !over[i]
+		if !started[i].IsZero() {
+			res.Wall = ended[i].Sub(started[i])
 		}
-		res.AssertUnsat += m.Stats.AssertUnsat
-		res.AssertSat += m.Stats.AssertSat
-		res.AssertUnk += m.Stats.AssertUnk
-		res.BranchQ += m.Stats.BranchQ
+		if len(p.Ms) > 0 {
+			res.InitNotes = p.Ms[0].InitNotes
+		}
 	}
-	if len(p.Ms) > 0 {
-		res.InitNotes = p.Ms[0].InitNotes
-	}
-	return res
+	return results
 }
 
 func prefixOf(t []int32) string {
